@@ -745,6 +745,19 @@ class Sim(object):
         self.cur_line_override = new_line
         self.nested_close = True
 
+    def close_fired(self, o):
+        """the Deferred returned by close() fires.  Independently of what the broker clients report through their own
+        close Deferreds: a broker client's connection that is still open on the client's side at this moment is shown
+        to the C20 monitor as network state that must not be after close (bootstrap connections: known finding, they
+        have their own rule)"""
+        for c in self.net.conns:
+            # `_verif_lost`: the connection-lost notification has been (or is being) delivered to the client's protocol;
+            # iosim sets `disconnected` only after connectionLost() has returned, and the close Deferred may fire inside it
+            if (getattr(c, "boot", None) is None and c not in self.boot_conns.values() and not c.ct.disconnected
+                    and not getattr(c, "_verif_lost", False)):
+                self.annot("t-net open conn=%d when the close Deferred fired" % c.cid)
+        self.obs("closeFired %d" % o)
+
     def api_close(self):
         o = self.new_op()
         if self.close_log_idx is None:
@@ -758,7 +771,7 @@ class Sim(object):
                 d = None
             if d is not None:
                 self.ops[o] = {"d": d, "result": None, "is_close": True}
-                d.addBoth(lambda r: self.obs("closeFired %d" % o) or None)
+                d.addBoth(lambda r: self.close_fired(o))
             return o
         with self.step("close %d" % o):
             try:
@@ -768,7 +781,7 @@ class Sim(object):
                 d = None
             if d is not None:
                 self.ops[o] = {"d": d, "result": None, "is_close": True}
-                d.addBoth(lambda r: self.obs("closeFired %d" % o) or None)
+                d.addBoth(lambda r: self.close_fired(o))
         self.settle()
         return o
 
@@ -885,6 +898,14 @@ class Sim(object):
                 return ol(*a2, **k2)
 
             conn.ct.write, conn.ct.loseConnection = write, lose
+            proto = conn.client_protocol
+            ocl = proto.connectionLost
+
+            def lost(*a2, **k2):
+                conn._verif_lost = True
+                return ocl(*a2, **k2)
+
+            proto.connectionLost = lost
 
         self.net.conn_created = created
         self.accepting_boot = None
